@@ -3,6 +3,8 @@
 package inmem
 
 import (
+	"reflect"
+
 	"github.com/hashicorp/consul/agent/consul/stream"
 	"github.com/hashicorp/consul/proto-public/pbresource"
 )
@@ -44,7 +46,21 @@ func (w *Watch) VerifC18WouldBlock() bool {
 	if !open {
 		return false
 	}
+	// A store whose Watch remembers the index of the last accepted batch (a field named idx; it does not
+	// exist in the tree this harness was written against, hence reflection) skips batches that are not newer.
+	guard, hasGuard := uint64(0), false
+	if f := reflect.ValueOf(w).Elem().FieldByName("idx"); f.IsValid() && f.Kind() == reflect.Uint64 {
+		guard, hasGuard = f.Uint(), true
+	}
 	for _, b := range batches {
+		if len(b) > 0 && !b[0].IsFramingEvent() {
+			if b[0].Index <= guard {
+				continue
+			}
+			if hasGuard {
+				guard = b[0].Index
+			}
+		}
 		for _, e := range b {
 			if e.IsFramingEvent() {
 				continue
